@@ -471,6 +471,7 @@ fn interleaved_pages(rng: &mut Rng, rep: &mut Report) {
 /// round over a dark page with spare bits... there are none, so: over a page whose spare bits alone are lit): set-all
 /// makes every pixel read the value, whatever the bits outside the page say.
 fn pages_over_other_pages_bytes(rng: &mut Rng, rep: &mut Report) {
+    // (see gigantic_pages for the filled half-gigabyte pages)
     for (w, h) in [(1u32, 7u32), (8, 7), (5, 3), (90, 7), (30, 10), (40, 12), (23, 10), (3, 1), (16, 15), (2, 9)] {
         let cb = refs::col_bytes(h);
         let spare_per_col = (cb * 8) as u32 - h;
@@ -593,6 +594,7 @@ fn sequence_of_length(rng: &mut Rng, rep: &mut Report, n_ops: usize) {
 /// first pixel past every 2^32-dot mark, random ones — are written, read back, checked against the byte and bit the
 /// layout prescribes, and cleared again; their neighbours stay dark.
 fn gigantic_pages(rng: &mut Rng, rep: &mut Report) {
+    let filled_gigantic = std::cell::Cell::new(0usize);
     // ... and pages that are a few columns of enormous HEIGHT (past 2^24, 2^30, 2^31, up to u32::MAX rows): where a column's
     // byte count is worked out in anything narrower or less exact than the height itself, it goes wrong here
     for (w, h) in [(65_537u32, 65_536u32), (65_536, 65_537), ((1 << 28) + 1, 16), (65_536, 65_536), (65_535, 65_536), (8_388_609, 512), (2, (1 << 24) + 1), (3, (1 << 24) + 9), (2, (1 << 30) + 1), (1, (1 << 31) + 1), (1, u32::MAX), (1, u32::MAX - 7)] {
@@ -642,6 +644,19 @@ fn gigantic_pages(rng: &mut Rng, rep: &mut Report) {
                         bad.push(format!("pixel ({},{}) still lit after it was cleared", x, y));
                     }
                 }
+                // two of the half-gigabyte pages are also FILLED (and cleared again): every probed pixel reads the value
+                if owned && (w, h) == (65_537, 65_536) || !owned && (w, h) == (2, (1 << 30) + 1) {
+                    for v in [true, false] {
+                        page.set_all_pixels(v);
+                        for &(x, y) in &probes {
+                            if page.get_pixel(x, y) != v {
+                                bad.push(format!("after set_all_pixels({}) pixel ({},{}) reads {}", v, x, y, !v));
+                                break;
+                            }
+                        }
+                    }
+                    filled_gigantic.set(filled_gigantic.get() + 1);
+                }
                 Ok(bad)
             }));
             match r {
@@ -658,6 +673,7 @@ fn gigantic_pages(rng: &mut Rng, rep: &mut Report) {
             }
         }
     }
+    rep.add("gigantic_pages_filled_and_cleared", filled_gigantic.get() as u64);
 }
 
 pub fn run(ctx: &Ctx) -> Outcome {
@@ -712,6 +728,7 @@ pub fn run(ctx: &Ctx) -> Outcome {
     }
     let floors = vec![
         floor("every page asked for could be built (otherwise the bounds rules were not observed on those sizes)", report.get("pages_that_could_not_be_built") == 0, report.get("pages_that_could_not_be_built")),
+        floor("two half-gigabyte pages filled and cleared with set_all_pixels, every probed pixel read after each", report.get("gigantic_pages_filled_and_cleared") == 2, report.get("gigantic_pages_filled_and_cleared")),
         floor("pages whose dot count passes 2^32 (65537x65536, 65536x65537, (2^28+1)x16, ...), owned and borrowed, probed at the corners, past the 2^32-dot mark and at random", report.get("gigantic_pages_probed") == 24, report.get("gigantic_pages_probed")),
         floor("out-of-bounds accesses made from a destructor while another panic unwinds (every size of the box)", report.get("oob_accesses_made_while_a_panic_unwinds") > 10_000 && report.get("oob_while_unwinding_not_reached") == 0, report.get("oob_accesses_made_while_a_panic_unwinds")),
         floor("the same coordinate written and read on pages of different strides one after the other", report.get("same_coordinate_on_one_page_after_another") > 500, report.get("same_coordinate_on_one_page_after_another")),
